@@ -193,7 +193,10 @@ package plush
 //@ errprop
 //@ assigns c.ctx, c.curStmt, mapsof("map[string]interface{}"), fresh
 
+// C02: inside a block, a code tag contributes nothing: an expression statement yields a value only if
+// it is literal template text or a control-flow object
 //@ func (c *compiler) evalStatement
+//@ ensures silent: is(node, "*ast.ExpressionStatement") && result != nil ==> is(result, "exitBlockStatment") || is(result, "ast.Printable") || (is(result, "template.HTML") && is(unbox(node, "*ast.ExpressionStatement").Expression, "*ast.HTMLLiteral"))
 //@ requires wf: node != nil && pay(node) != 0
 //@ requires cctx: cctx(c)
 //@ ensures restored: c.ctx == old(c.ctx) && (c.curStmt == nil || pay(c.curStmt) != 0)
